@@ -90,4 +90,4 @@ def build(chk, rng, cenc, denc, extras=(), order=None, ctl_files=None, data_file
     if order:
         ms = [ms[i] for i in order]
     return argen.render(ms), {"control": cfields, "ctext": ctext, "cext": b"tar" + cenc.encode(), "dext": b"tar" + denc.encode(),
-                              "members": [(m["name"], len(m["data"])) for m in ms], "data_files": dfiles, "ms": ms}
+                              "members": [(m["name"], len(m["data"])) for m in ms], "data_files": dfiles, "ctl_files": cfiles, "ms": ms}
